@@ -165,6 +165,9 @@ Proof.
   intros x H. change 0%Z with (Qfloor 0). apply Qfloor_resp_le. exact H.
 Qed.
 
+Lemma inject_Z_nonneg : forall z, (0 <= z)%Z -> 0 <= inject_Z z.
+Proof. intros z H. change 0 with (inject_Z 0). rewrite <- Zle_Qle. exact H. Qed.
+
 (* |round(y) - y| <= 1/2 *)
 Lemma Qround_away_err : forall y,
   y - (1#2) <= inject_Z (Qround_away y) /\ inject_Z (Qround_away y) <= y + (1#2).
@@ -258,37 +261,46 @@ Definition stage_a_spec (m : list (list (cell Q))) (offset scale : Q) : Prop :=
   (exists z, offset = inject_Z z) /\ (exists z, scale = inject_Z z) /\ 0 <= scale /\
   forall x, In x (finite_cells QOps m) -> offset <= x /\ (x - offset) * scale <= 1000.
 
+Definition q_small (small0 large : Q) : Q := if eqb_n QOps small0 large then large - 1 else small0.
+
+Lemma stage_a_Q_eq : forall m,
+  stage_a QOps m =
+  (small0 <- small_of QOps m ;; large <- large_of QOps m ;;
+   Ok (inject_Z (Qfloor (q_small small0 large)),
+       inject_Z (Qfloor (inject_Z 1000 / (large - inject_Z (Qfloor (q_small small0 large))))))).
+Proof. reflexivity. Qed.
+
 Lemma stage_a_Q : forall m offset scale,
   stage_a QOps m = Ok (offset, scale) -> stage_a_spec m offset scale.
 Proof.
-  intros m offset scale H. unfold stage_a, small_of, large_of in H.
+  intros m offset scale H. rewrite stage_a_Q_eq in H. unfold small_of, large_of in H.
   destruct (finite_cells QOps m) as [|x0 r] eqn:Ecells; [discriminate|].
   destruct (min_by_Q_ok r x0) as [small0 Hmin]. destruct (max_by_Q_ok r x0) as [large Hmax].
   rewrite Hmin, Hmax in H. cbn [rbind] in H.
   apply min_by_Q in Hmin. destruct Hmin as (Hm1 & Hm2 & Hm3).
   apply max_by_Q in Hmax. destruct Hmax as (HM1 & HM2 & HM3).
-  set (small := if eqb_n QOps small0 large then n_sub QOps large (n_one QOps) else small0) in H.
-  inversion H as [[Hoff Hsc]]; clear H.
+  assert (offset = inject_Z (Qfloor (q_small small0 large)) /\
+          scale = inject_Z (Qfloor (inject_Z 1000 / (large - inject_Z (Qfloor (q_small small0 large))))))
+    as [Hoff Hsc] by (split; congruence).
+  clear H. set (small := q_small small0 large) in *.
   assert (small <= small0 /\ small < large) as [Hs1 Hs2].
-  { unfold small, eqb_n. cbn. destruct (Qcompare_spec small0 large) as [E|E|E]; try lra.
-    exfalso. rewrite Forall_forall in HM2. destruct Hm3 as [Hx|Hx]; [subst; lra|].
-    specialize (HM2 _ Hx). lra. }
+  { unfold small, q_small, eqb_n. cbn. destruct (Qcompare_spec small0 large) as [E|E|E]; split; lra. }
   destruct (Qfloor_bounds small) as [Hf1 Hf2].
-  set (off := inject_Z (Qfloor small)) in *.
+  set (off := inject_Z (Qfloor small)) in *. subst offset scale.
   assert (0 < large - off) as Hpos by lra.
-  destruct (Qfloor_bounds (inject_Z (Z.of_nat cdf_range) / (large - off))) as [Hg1 Hg2].
-  assert (0 <= inject_Z (Z.of_nat cdf_range) / (large - off)) as Hq.
-  { apply Qle_shift_div_l; [exact Hpos|]. cbn. lra. }
+  destruct (Qfloor_bounds (inject_Z 1000 / (large - off))) as [Hg1 Hg2].
+  assert (0 <= inject_Z 1000 / (large - off)) as Hq.
+  { apply Qle_shift_div_l; [exact Hpos|]. rewrite Qmult_0_l. vm_compute. intros C; discriminate C. }
   repeat split.
   - eexists; reflexivity.
   - eexists; reflexivity.
-  - change 0 with (inject_Z 0). rewrite <- Zle_Qle. apply Qfloor_nonneg. exact Hq.
+  - apply inject_Z_nonneg, Qfloor_nonneg. exact Hq.
   - assert (small0 <= x) as Hx.
     { destruct H as [Hx|Hx]; [subst; lra|]. rewrite Forall_forall in Hm2. apply Hm2, Hx. }
     lra.
   - assert (small0 <= x /\ x <= large) as [Hx1 Hx2].
     { destruct H as [Hx|Hx]; [subst; split; lra|]. rewrite Forall_forall in Hm2, HM2. split; auto. }
     apply (Qmult_le_1000 _ (large - off)); try lra.
-    + change 0 with (inject_Z 0). rewrite <- Zle_Qle. apply Qfloor_nonneg. exact Hq.
+    + apply inject_Z_nonneg, Qfloor_nonneg. exact Hq.
     + exact Hg1.
 Qed.
